@@ -236,7 +236,13 @@ func (p *TxProcessor) checkSignersWeight(sender common.Address, tx *types.Transa
 		signersMap := accSigners.ToSignerMap()
 		// 计算签名者权重总和
 		var totalWeight int64 = 0
+		counted := make(map[common.Address]struct{}, len(signers))
 		for _, addr := range signers {
+			// a signer counts once, however many signatures it put on the transaction
+			if _, dup := counted[addr]; dup {
+				continue
+			}
+			counted[addr] = struct{}{}
 			if w, ok := signersMap[addr]; ok {
 				totalWeight = totalWeight + int64(w)
 			}
